@@ -5,7 +5,7 @@ from vlib.emlkit import Node
 
 UNKNOWN_NAMES = ["verifUnknown", "Dataset", "", "stmml:unitList", "référence", "名前", "a b", "x" * 50]
 TEXT_ALPH = ["a", "b", "Z", "0", "9", " ", " ", "\t", "\n", "\xa0", "<", ">", "&", "\"", "'", "é", "ß", "湖", "\U0001F600", "​",
-             "-", ".", ":", "/", "%", "\x01", "\x7f", "�", "١", "_"]
+             "-", ".", ":", "/", "%", "\x01", "\x7f", "�", "١", "_", "e\u0301", "\u212b", "²", "\ufb01"]
 ROOTS = ["eml", "dataset", "dataTable", "creator", "methods", "coverage", "project", "abstract", "attribute", "otherEntity",
          "additionalMetadata", "attributeList", "physical", "taxonomicCoverage", "access", "para", "section"]
 
